@@ -449,33 +449,105 @@ func c04R3(w *World, r *Report) {
 			}
 			nConv++
 			upper, lower := false, false
-			// guards: an If on a comparison of cv.X with a bound whose "in range" successor dominates the conversion
+			loose := ""
+			// guards: an If on a comparison of cv.X with a constant bound, on the
+			// edge that dominates the conversion; the accepted side v REL c must lie
+			// inside the int64 range exactly: v < c needs c ≤ 2^63, v ≤ c needs
+			// c < 2^63 (c ≤ MaxInt64 for integers), v > c / v ≥ c need c ≥ −2^63
+			two63 := constant.Shift(constant.MakeInt64(1), token.SHL, 63)
+			minus63 := constant.UnaryOp(token.SUB, two63, 0)
 			if refs := cv.X.Referrers(); refs != nil {
 				for _, ref := range *refs {
 					b, ok := ref.(*ssa.BinOp)
-					if !ok || b.X != cv.X {
+					if !ok || (b.X != cv.X && b.Y != cv.X) {
 						continue
 					}
+					op := b.Op
+					var bound ssa.Value = b.Y
+					if b.Y == cv.X { // c REL v  ≡  v REL' c
+						bound = b.X
+						switch op {
+						case token.LSS:
+							op = token.GTR
+						case token.LEQ:
+							op = token.GEQ
+						case token.GTR:
+							op = token.LSS
+						case token.GEQ:
+							op = token.LEQ
+						}
+					}
+					kc, isC := bound.(*ssa.Const)
 					for _, r2 := range *b.Referrers() {
 						ifi, ok := r2.(*ssa.If)
 						if !ok {
 							continue
 						}
-						safe := ifi.Block().Succs[1] // false edge of "out of range"
-						if !safe.Dominates(cv.Block()) {
+						taken := -1
+						for si, sb := range ifi.Block().Succs {
+							if (sb == cv.Block() || sb.Dominates(cv.Block())) && len(sb.Preds) == 1 {
+								taken = si
+							}
+						}
+						if taken < 0 {
 							continue
 						}
-						switch b.Op {
+						rel := op
+						if taken == 1 { // the comparison is false on the way to the conversion
+							switch op {
+							case token.GTR:
+								rel = token.LEQ
+							case token.GEQ:
+								rel = token.LSS
+							case token.LSS:
+								rel = token.GEQ
+							case token.LEQ:
+								rel = token.GTR
+							default:
+								continue
+							}
+						}
+						if !isC || kc.Value == nil {
+							// a non-constant bound: direction only
+							switch rel {
+							case token.LSS, token.LEQ:
+								upper = true
+							case token.GTR, token.GEQ:
+								lower = true
+							}
+							continue
+						}
+						c := constant.ToFloat(kc.Value)
+						switch rel {
+						case token.LSS: // v < c
+							if constant.Compare(c, token.LEQ, two63) {
+								upper = true
+							} else {
+								loose = "v < " + kc.Value.ExactString() + " admits values ≥ 2^63"
+							}
+						case token.LEQ: // v ≤ c
+							if constant.Compare(c, token.LSS, two63) {
+								upper = true
+							} else {
+								loose = "v ≤ " + kc.Value.ExactString() + " admits 2^63 itself, which is not an int64"
+							}
 						case token.GTR, token.GEQ:
-							upper = true
-						case token.LSS, token.LEQ:
-							lower = true
+							if constant.Compare(c, token.GEQ, minus63) {
+								lower = true
+							} else {
+								loose = "lower bound " + kc.Value.ExactString() + " admits values below −2^63"
+							}
 						}
 					}
 				}
 			}
+			if loose != "" && !(upper && (lower || !needLower)) {
+				loose = " (" + loose + ")"
+			} else {
+				loose = ""
+			}
 			okc := (!needUpper || upper) && (!needLower || lower)
-			r.check(okc, rule, fmt.Sprintf("%s:convert(%s→int64)", name, src.Name()), w.instrPos(cv), "conversion behind range guards", fmt.Sprintf("an %s is converted to int64 without a dominating guard (upper=%v lower=%v): out-of-range values wrap (implementation-defined for floats) and the block's range no longer covers the row", src.Name(), upper, lower))
+			r.check(okc, rule, fmt.Sprintf("%s:convert(%s→int64)", name, src.Name()), w.instrPos(cv), "conversion behind range guards", fmt.Sprintf("an %s is converted to int64 without a dominating guard that keeps it inside the int64 range (upper=%v lower=%v)%s: out-of-range values wrap (implementation-defined for floats — 2^63 becomes MinInt64 on amd64) and the block's range no longer covers the row", src.Name(), upper, lower, loose))
 		})
 	}
 	if nConv == 0 {
